@@ -55,6 +55,7 @@ func init() {
 		"bytes.IndexByte":           bytesIndexByte,
 		"internal/bytealg.IndexByte": bytesIndexByte,
 		"fmt.Errorf":                fmtErrorf,
+		"errors.Is":                 errorsIs,
 		"fmt.Sprintf":               fmtSprintf,
 		"fmt.Sprint":                fmtSprint,
 		"fmt.Println":               func(fr *frame, a []Value) Value { return Tuple{fr.th.eng.pool.BV(0, 64), Iface{}} },
@@ -256,6 +257,22 @@ func (e *Engine) errorString(msg string) Value {
 	cell := new(Value)
 	*cell = Struct{Str{s: msg}}
 	return Iface{t: t, v: cell}
+}
+
+// errorsIs: errors.Is over the engine's error objects. Errors made by errors.New / fmt.Errorf are opaque
+// (*errors.errorString): nothing is wrapped inside them in this model, so Is is identity (a "%w" chain
+// that the native run follows would show up as an engine / native discrepancy, never as a verdict).
+func errorsIs(fr *frame, a []Value) Value {
+	e := fr.th.eng
+	x, ok1 := a[0].(Iface)
+	y, ok2 := a[1].(Iface)
+	if !ok1 || !ok2 {
+		panic(inconclusive{"errors.Is: unexpected operands"})
+	}
+	if x.t == nil || y.t == nil {
+		return e.pool.Bool(x.t == nil && y.t == nil)
+	}
+	return e.equals(types.Universe.Lookup("error").Type(), x, y)
 }
 
 func fmtErrorf(fr *frame, a []Value) Value {
